@@ -17,6 +17,7 @@ CONSTANTS
   UseWindow = TRUE
   UseReopen = TRUE
   UseEpochs = TRUE
+  UseReaders = FALSE
 INVARIANTS CTypeOK C01_Ordered SegsConsistent NoEmptyInnerSegment
 PROPERTIES StepsOK
 VIEW MCView
